@@ -4,6 +4,8 @@ import (
 	"bytes"
 	"fmt"
 	"math/big"
+	"os"
+	"os/exec"
 	"runtime"
 	"runtime/metrics"
 	"time"
@@ -428,12 +430,64 @@ func varUint64(v uint64) []byte {
 	return append([]byte{}, tmp[i:]...)
 }
 
+// C06Probe runs one driver over n repetitions of an opening bracket and reports how it ended.
+func C06Probe(driver int, bracket string, n int) int {
+	data := bytes.Repeat([]byte(bracket), n)
+	calls, hang := c06Drive(driver, data, 0, false)
+	fmt.Printf("probe done calls=%d hang=%q\n", calls, hang)
+	return 0
+}
+
+var c06DeepBrackets = []string{"[", "(", "{a:"}
+var c06DeepDrivers = []int{1, 3, 4} // next-only (skips), decoder-loop, unmarshal-interface
+
+// c06Deep: nesting far beyond what a thread of the exploration could survive, so each case runs
+// in a process of its own: the input is n opening brackets (1, 5 and 9 million).
+func c06Deep(c *mc.Ctx) {
+	// one shard per probe (they run side by side); the quick tier uses '[' only
+	nb := 1
+	if c.Tier == "thorough" {
+		nb = len(c06DeepBrackets)
+	}
+	k := c.Shard("probe", nb*9)
+	br := c06DeepBrackets[k/9]
+	n := []int{5000000, 9000000, 1000000}[k%9/3]
+	driver := c06DeepDrivers[k%3]
+	if c.Tier != "thorough" && !(n == 5000000 || (n == 9000000 && driver == 1)) {
+		c.Skip("the quick tier probes 5 million under each driver and 9 million under the skipping driver")
+		return
+	}
+	c.Case(func() string {
+		return fmt.Sprintf("deep nesting: %d x %q (%d bytes), driver=%s, in its own process", n, br, n*len(br), c06Drivers[driver])
+	})
+	c.Class("deep/" + c06Drivers[driver])
+	c.Costly()
+	cmd := exec.Command(os.Args[0], "c06probe", fmt.Sprint(driver), br, fmt.Sprint(n))
+	cmd.Env = append(os.Environ(), "GOMAXPROCS=2", "GOGC=off") // no collector: scanning a gigabyte of stack over and over is what makes these probes slow
+	out, err := cmd.CombinedOutput()
+	c.Step(1)
+	switch {
+	case err == nil && bytes.Contains(out, []byte("probe done")):
+		c.Observe(br, n, driver, "ok")
+		c.Nontrivial()
+	case bytes.Contains(out, []byte("stack overflow")):
+		c.Fail("fatal", "stack overflow:"+c06Drivers[driver], "the process died with 'fatal error: stack overflow' (unbounded recursion on nesting depth): %s", clipStr(string(out), 300))
+	case bytes.Contains(out, []byte("out of memory")):
+		c.Fail("fatal", "out of memory:"+c06Drivers[driver], "the process died out of memory: %s", clipStr(string(out), 300))
+	default:
+		c.Fail("fatal", "died:"+c06Drivers[driver], "the process ended abnormally (%v): %s", err, clipStr(string(out), 400))
+	}
+}
+
 func c06Body(c *mc.Ctx) {
 	var data []byte
 	var what string
 	thorough := c.Tier == "thorough"
 	hostile := false
-	switch c.Pick("family", 5) {
+	switch c.Pick("family", 6) {
+	case 5:
+		c06Deep(c)
+		return
 	case 0: // (a) all short binary strings after the version marker
 		n := c.Pick("len", 4)
 		body := make([]byte, n)
@@ -583,7 +637,7 @@ func init() {
 		ID:    "C06",
 		Title: "No input can crash, hang or exhaust memory in a Reader, Decoder or Unmarshal",
 		Rule: "inputs, all enumerated exhaustively: (a) the version marker followed by EVERY byte string of length <=2 and every length-3 string over a 48-tag alphabet (thorough: all 2^24), and EVERY text string of length <=3 (thorough 4) over a 37-character alphabet of grammar-significant bytes; (b) hostile symbol tables: 11 slots (symbols, symbols[i], imports, imports[i], name, version, max_id, duplicated fields, unknown fields, annotated slots) x 24 odd values (every typed null, wrong-typed scalars, negative/huge integers) in text and binary, followed by values using the affected IDs, each read without and with a catalog whose tables of those names are shorter or longer than the declared max_id; " +
-			"(c) extreme declared sizes: every type code with L=14 and VarUInt lengths up to 2^63+1 plus EVERY length in the last 48 below 2^64 (position+length wraps) at top level and nested, annotation wrappers whose wrapper length (0..13, VarUInt), annotation-list length (0..12), number of SID bytes present (0..11) and wrapped value disagree in every combination incl. wrapped lengths that balance modulo 2^64, at top level / in a list / in a struct, unterminated/overlong VarUInts, decimal and timestamp-fraction exponents and coefficients at int32/int64 boundaries, symbol IDs / max_id / version beyond int64, text exponents beyond int32, nesting to depth 5000; (d) every position of every seed document x byte substitutions (52 values quick, all 256 thorough) in both formats. " +
+			"(c) extreme declared sizes: every type code with L=14 and VarUInt lengths up to 2^63+1 plus EVERY length in the last 48 below 2^64 (position+length wraps) at top level and nested, annotation wrappers whose wrapper length (0..13, VarUInt), annotation-list length (0..12), number of SID bytes present (0..11) and wrapped value disagree in every combination incl. wrapped lengths that balance modulo 2^64, at top level / in a list / in a struct, unterminated/overlong VarUInts, decimal and timestamp-fraction exponents and coefficients at int32/int64 boundaries, symbol IDs / max_id / version beyond int64, text exponents beyond int32, nesting to depth 5000; (d) every position of every seed document x byte substitutions (52 values quick, all 256 thorough) in both formats; (e) 1, 5 and 9 million opening brackets ([ ( {a:) under the skipping, Decoder and Unmarshal drivers, each in a process of its own (quick tier: 5 million [ under each driver and 9 million under the skipping one). " +
 			"Each input under six drivers (full traversal calling ALL 18 accessors on every value, Next only, StepIn/StepOut/refused StepOut, Decoder.Decode loop, Unmarshal into interface{}, Unmarshal into each of 26 typed targets incl. named key/element/slice/byte types). Oracle: no panic (recovered and attributed), no worker death (case announced beforehand), at most 16*len+64 calls per driver (deterministic hang guard), heap allocation <= 1 MiB + 4 KiB per input byte. " +
 			"non-trivial = driver ran to completion under all guards; distinct = distinct (family, driver, progress) digests",
 		Bounds:       map[string]string{"quick": "binary len<=2 + 48^3; text len<=3; substitutions on seeds <=120 bytes, 52 values", "thorough": "binary len<=3 all bytes; text len<=4; all seeds, all 256 values"},
